@@ -149,10 +149,14 @@ class _OrbitCorrectionService(_DynamicsServiceBase):
                     "residual_norm": result.residual_norm,
                 }
             )
-            self.apply_correction(payload)
             return result.x_corrected, 2 * result.half_period, payload, result
 
         state, period, payload, result = self.get_or_create(cache_key, _factory)
+        # Install the correction on every call: a cache hit must leave the orbit
+        # in the same state as the computation that filled the cache did.
+        dynamics = self.domain_obj.dynamics
+        if dynamics.period != period or not np.array_equal(dynamics.initial_state, np.asarray(state, dtype=float)):
+            self.apply_correction(payload)
         return state, period, result
 
     def apply_correction(self, update: OrbitCorrectionDomainPayload) -> OrbitCorrectionDomainPayload:
